@@ -162,6 +162,31 @@ def rule_pending_tables(ctx):
         calls = [(n, c) for n in g2.stmt_nodes() for c in node_calls(n) if self_call(c, "_errback_outstanding_requests")]
         ok = len(calls) == 1 and g2.always_followed_by(g2.entry, lambda x: x is calls[0][0])
         ctx.ob(f"{name}: always fails the outstanding requests", ok, "not on every path", f2.loc())
+    # overrides inside the library (e.g. the pep8-style Session used by Component): an override that does not hand over to the base
+    # implementation must itself fail the outstanding requests on every path -- else "leave nothing pending" is lost for that class
+    from .common import is_test_module
+    base = ctx.program.cls(APPSESSION)
+    for c in ctx.program.subclasses(base):
+        if is_test_module(c.module.name) or ".xbr" in c.module.name:
+            continue
+        for name in ("onLeave", "onDisconnect"):
+            f2 = c.methods.get(name)
+            if f2 is None:
+                continue
+            ctx.analysed(f2)
+            g2, mf2, res2 = an.get(f2)
+
+            def fails_them(n):
+                for cc in node_calls(n):
+                    if self_call(cc, "_errback_outstanding_requests"):
+                        return True
+                    t_ = norm.text(cc.func) or ""
+                    if t_.endswith(f".{name}") and (t_.startswith("super()") or t_.split(".")[0] in [b.name for b in ctx.program.mro(c)[1:]]):
+                        return True
+                return False
+            ctx.ob(f"{c.qualname}.{name} (override): the outstanding requests are failed on every path", g2.always_followed_by(g2.entry, fails_them, exc=False),
+                   f"the override neither calls _errback_outstanding_requests() nor the base {name}(): a request pending when the session ends never completes",
+                   f2.loc())
     od = ctx.program.func(f"{APPSESSION}.onDisconnect")
     from .common import canon_text
     eb = [c for c in calls_in(od.node) if self_call(c, "_errback_outstanding_requests")]
